@@ -25,5 +25,19 @@ claim("C08", "SSA rules on the abstract arms of the type dispatcher (which Type 
       "Decides that the union arm dispatches by the runtime Go type to a member object and guards it against regression; reports (as known findings, feature gaps of the library) that interface-typed values are resolved against the static interface and that fragment applicability is identity-only; inline and named fragments must agree.",
       TB)
 
-for p in ["C03","C05","C07","C08","C10","C11","C12","C13","C14","C15","C16","C17","C18","C19","C20"]:
+EFF = "interprocedural effect (mod-set) analysis over go/ssa: access-path provenance with freshness, bottom-up summaries over the CHA call graph to a fixpoint, must/may locksets per instruction, guard matching across calls"
+claim("C11", EFF + "; query: no write summarised for ResolveExecutable / AddEvent lands in a location reachable from the parsed request or in an object of a request AST type",
+      "Decides, for every path of every function reachable from ResolveExecutable and AddEvent at once, that resolution writes nothing into the parsed request (read-only use of the AST) - the structural reason why repeated resolves equal fresh parses and the printed form is unchanged. Five genuine defects found by this rule were repaired (literal substitution in place, in-place coercion of literals and variable defaults, argument list reordering, subscription overwriting the field's container type). One reviewed exemption (write-once cache Field.ConType) is printed in the evidence.",
+      TB)
+claim("C12", EFF + "; queries: request-time writes/reads of schema-typed state vs. the guard table, Lock/Unlock pairing, lock-order graph",
+      "Decides, for all interleavings at once, the lock discipline that makes concurrent requests race-free on library state: every request-time write to shared schema state is either into request-fresh memory or into one of four guarded fields with its mutex held on the same object (also when the writer is a callee and the holder a caller), every read of those fields holds the mutex, locks are released on all paths and ordered acyclically. The race fixed in fac9237 (regField) is guarded against regression. Isolation of responses is not decided.",
+      TB + " Assumes Root values are created by NewRoot (init ran before the first request).")
+claim("C19", "SSA structure rules on subscribe / Unsubscribe / AddEvent: who-may-write the registry, removal pattern inside descending induction loops, pairing of removal and clean-up callback, guards and operands of Send in the publish loop",
+      "Decides the loop and pairing shape that the sequential delivery semantics depends on: registration appends, removals cannot skip elements, each removal has exactly one clean-up and there is no other clean-up, delivery is ascending, once per matching subscriber, with that subscriber's own selection, counted under the same guard, failures recorded exactly when Send fails, clean-up by identity. Outcomes over histories are not decided.",
+      TB)
+claim("C20", EFF + "; queries: every registry access and every Subscriber callback holds Root.subLock; pairing; lock order; two-phase clean-up re-check",
+      "Decides for all interleavings that the registry and the subscriber callbacks are only touched under the one registry mutex, that the mutex is always released and never re-acquired, and that the clean-up phase re-validates identity inside its own critical section. Linearizability of outcomes is not decided.",
+      TB)
+
+for p in ["C03","C05","C07","C13","C14","C15","C16","C17","C18"]:
     na(p, "rules designed (DESIGN.md section 4) but not yet implemented in the checker at this commit; will be claimed once its rule set runs clean")
